@@ -11,6 +11,7 @@ import (
 	"fmt"
 	"math/rand"
 	"strings"
+	"time"
 
 	"verifharness/core"
 	"verifharness/fixwire"
@@ -53,6 +54,13 @@ func automaton(tr []lab.Event, liveTrace bool) (viol []string, stats map[string]
 	for _, e := range tr {
 		switch e.Kind {
 		case "step":
+			if e.Detail == "second offer accepted" {
+				// the engine took a new connection while the previous one was open: that one has ended for good
+				endConn("it was replaced by a second connection the engine accepted while this one was open")
+				connected, closed = true, false
+				stats["connections"]++
+				continue
+			}
 			if e.Detail == "connect" || e.Detail == "end of run" {
 				if liveTrace && connected {
 					endConn("the next connection started / the run ended")
@@ -130,7 +138,7 @@ func automaton(tr []lab.Event, liveTrace bool) (viol []string, stats map[string]
 	return
 }
 
-var symbols = []string{"app-in-high", "hb-in-high", "connect", "logon", "logon-high", "logon-low", "logon-reset", "logon-badcomp", "app-in", "hb-in", "testreq-in", "logout-in", "garbage-in", "send", "send", "t-heartbeat", "t-peer", "t-logon", "t-logout", "stop", "close"}
+var symbols = []string{"connect-again", "app-in-low-origlater", "app-in-high", "hb-in-high", "connect", "logon", "logon-high", "logon-low", "logon-reset", "logon-badcomp", "app-in", "hb-in", "testreq-in", "logout-in", "garbage-in", "send", "send", "t-heartbeat", "t-peer", "t-logon", "t-logout", "stop", "close"}
 
 func apply(l *lab.Lab, p *lab.Peer, sym string, k int) {
 	sn := l.Snap()
@@ -138,6 +146,15 @@ func apply(l *lab.Lab, p *lab.Peer, sym string, k int) {
 	case "connect":
 		if !sn.Connected {
 			_ = l.Connect()
+		}
+	case "connect-again":
+		if sn.Connected {
+			l.ConnectAgain()
+		}
+	case "app-in-low-origlater":
+		// a too-low duplicate whose OrigSendingTime is later than its SendingTime: refused with Reject + Logout
+		if sn.NextTarget > 1 {
+			l.In("app (too low, PossDup, OrigSendingTime later than SendingTime)", p.NewOrder(sn.NextTarget-1, fixwire.Fields{lab.F(43, "Y"), lab.F(122, p.TS(time.Minute))}, fmt.Sprintf("d%d", k)))
 		}
 	case "logon":
 		p.NextOut = sn.NextTarget
